@@ -1120,7 +1120,81 @@ def cx_chain_line(r, args):
     return ' '.join(['cxf', f2b(en), f2b(t), f2b(d), ev(r._eb, math.log10(en)), ev(r._ti, t), ev(r._ni, d), ev(r._zeff, z), ev(r._b, b)])
 
 
-def numeric_case(ctx, cat, repo, name, dims, ex, gap=None, fixed=None, steep=None):
+def _const_like(t, v):
+    return [_const_like(x, v) for x in t] if isinstance(t, list) else v
+
+
+def _flat_along(t, axis_i, depth=0):
+    """make a nested table constant along axis `axis_i` (copy of the index-0 slice)"""
+    if depth == axis_i:
+        return [json.loads(json.dumps(t[0])) for _ in t]
+    return [_flat_along(x, axis_i, depth + 1) for x in t]
+
+
+def degenerate(shape, tab, label):
+    """exactly flat components, components equal to 1 / to the reference value (the tables stay positive)"""
+    def one(t):
+        t = json.loads(json.dumps(t))
+        if shape in ('grid2', 'grid3'):
+            if label == 'flat':
+                t['rate'] = _const_like(t['rate'], _flat_first(t['rate']))
+            elif label == 'ones':
+                t['rate'] = _const_like(t['rate'], 1.0)
+            elif label.startswith('flat-axis'):
+                t['rate'] = _flat_along(t['rate'], int(label[-1]))
+        elif shape == 'beam':
+            if label == 'st-flat':
+                t['st'] = [t['st'][0]] * len(t['st'])
+            elif label == 'st-equals-sref':
+                t['st'] = [t['sref']] * len(t['st'])
+            elif label == 'sen-flat':
+                t['sen'] = _const_like(t['sen'], t['sen'][0][0])
+            elif label == 'ones':
+                t['sen'] = _const_like(t['sen'], 1.0)
+                t['st'] = [1.0] * len(t['st'])
+                t['sref'] = 1.0
+            elif label.startswith('flat-axis'):
+                t['sen'] = _flat_along(t['sen'], int(label[-1]))
+            elif label == 'all-flat':
+                t['sen'] = _const_like(t['sen'], t['sen'][0][0])
+                t['st'] = [t['sref']] * len(t['st'])
+        else:
+            ks = ('qeb', 'qti', 'qni', 'qz', 'qb')
+            if label.startswith('flat-axis'):
+                k = ks[int(label[-1])]
+                t[k] = [t[k][0]] * len(t[k])
+            elif label.startswith('ref-axis'):
+                k = ks[int(label[-1])]
+                t[k] = [t['qref']] * len(t[k])
+            elif label == 'all-flat':
+                for k in ks:
+                    t[k] = [t[k][0]] * len(t[k])
+            elif label == 'ones':
+                for k in ks:
+                    t[k] = [1.0] * len(t[k])
+                t['qref'] = 1.0
+        return t
+    if shape == 'beamCX':
+        return dict(metastables={int(m): one(t) for m, t in tab['metastables'].items()})
+    return one(tab)
+
+
+def _flat_first(t):
+    return _flat_first(t[0]) if isinstance(t, list) else t
+
+
+DEGENERATE = {
+    'grid2': [((3, 3), 'flat'), ((3, 4), 'ones'), ((4, 3), 'flat-axis0'), ((3, 4), 'flat-axis1'), ((2, 2), 'flat'), ((2, 3), None), ((3, 2), 'ones')],
+    'grid3': [((3, 3, 3), 'flat'), ((2, 3, 2), 'ones'), ((3, 3, 3), 'flat-axis0'), ((3, 3, 3), 'flat-axis1'), ((3, 3, 3), 'flat-axis2'), ((2, 2, 2), None)],
+    'beam': [((3, 3, 4), 'st-flat'), ((3, 3, 3), 'st-equals-sref'), ((3, 3, 3), 'sen-flat'), ((3, 3, 3), 'ones'), ((3, 3, 3), 'flat-axis0'),
+             ((3, 3, 3), 'flat-axis1'), ((3, 4, 3), 'all-flat'), ((2, 2, 2), None), ((2, 2, 2), 'st-flat'), ((1, 3, 3), 'st-flat'), ((3, 1, 2), 'st-equals-sref'),
+             ((1, 1, 3), 'all-flat')],
+    'beamCX': [((3, 3, 3, 3, 3), 'flat-axis%d' % i) for i in range(5)] + [((3, 3, 3, 3, 3), 'ref-axis%d' % i) for i in range(1, 5)]
+              + [((3, 3, 3, 3, 3), 'all-flat'), ((3, 3, 3, 3, 3), 'ones'), ((2, 2, 2, 2, 2), None), ((2, 2, 2, 2, 2), 'all-flat'), ((1, 2, 1, 2, 2), 'all-flat')],
+}
+
+
+def numeric_case(ctx, cat, repo, name, dims, ex, gap=None, fixed=None, steep=None, degen=None, keep_root=False):
     """build one repository + accessor call; returns dict with driver line(s) and observations.
     `fixed` (replay): dict(species, ch, tr, tab, wls, fb, extra) instead of generated content"""
     from cherab.openadas import OpenADAS, repository as R
@@ -1140,6 +1214,8 @@ def numeric_case(ctx, cat, repo, name, dims, ex, gap=None, fixed=None, steep=Non
     req_key = tuple(species)
     tabs = {}
     tab = fixed['tab'] if fixed else gen_table(rng, shape, dims, gap)
+    if degen and not fixed:
+        tab = degenerate(shape, tab, degen)
     if steep is not None and not fixed:
         for ax_ in (steep if isinstance(steep, tuple) else (steep,)):
             tab = make_steep(rng, shape, tab, ax_)
@@ -1161,8 +1237,9 @@ def numeric_case(ctx, cat, repo, name, dims, ex, gap=None, fixed=None, steep=Non
     fb = rng.random() < 0.5 if fb is None else fb
     a = OpenADAS(data_path=root, permit_extrapolation=ex, missing_rates_return_null=rng.random() < 0.5, wavelength_element_fallback=fb)
     st, val, in_list = call_accessor(spec, a, species, ch, tr)
-    repo.drop(root)
-    return dict(name=name, spec=spec, species=species, ch=ch, tr=tr, tabs=tabs, elem_syms=tuple(key_syms(elem_key)), wls=wls, fb=fb, ex=ex,
+    if not keep_root:
+        repo.drop(root)
+    return dict(root=root, provider=a, degen=degen, name=name, spec=spec, species=species, ch=ch, tr=tr, tabs=tabs, elem_syms=tuple(key_syms(elem_key)), wls=wls, fb=fb, ex=ex,
                 st=st, val=val, in_list=in_list, dims=dims, extra=(fixed or {}).get('extra'),
                 steep=steep if steep is not None else (fixed or {}).get('steep'),
                 pol=pol_line(name, False, fb, list(zip(spec['species'], species)), [list(k) for k in tabs], sorted(wls)))
@@ -1182,7 +1259,7 @@ def numeric_stream(ctx, cat, plan):
     for c, po in zip(cases, pol_out):
         spec, shape = c['spec'], c['spec']['shape']
         desc = dict(kind='numeric', accessor=c['name'], species=[s.name for s in c['species']], charges=c['ch'], transition=list(c['tr']),
-                    extrapolate=c['ex'], fallback=c['fb'], wavelengths=c['wls'], dims=list(c['dims']),
+                    extrapolate=c['ex'], fallback=c['fb'], wavelengths=c['wls'], dims=list(c['dims']), degenerate=c.get('degen'),
                     table=c['tabs'][c['elem_syms']])
         # ---- K, accessor level: the policy model's prediction of which table / wavelength is used
         c['model_tab'] = c['model_wl'] = None
@@ -1343,6 +1420,138 @@ def rate_oracle(ctx, c, shape, wt, kind, args, info, ist, iv, d):
                              cls, tuple(args), iv if ist == 'ok' else ist, ARG_NAMES[shape][info['axis']]), d)
 
 
+# ------------------------------------------------------------------------------------------------ repeated calls on one rate object (K + S)
+# The sentence speaks of "every rate object": each call on a live object must behave exactly like the same call on a
+# freshly constructed one (value, or exception kind) -- a rate object that remembers anything from earlier calls
+# (last energy, last interpolation cell, last result) and gets it wrong shows up here.
+REPEAT_SHAPES = {'grid2': [(3, 4), (2, 2)], 'grid3': [(3, 2, 3)], 'beam': [(3, 3, 3), (1, 3, 2), (3, 1, 3), (1, 1, 2)],
+                 'beamCX': [(3, 3, 3, 3, 3), (1, 2, 1, 3, 1), (3, 1, 1, 1, 1)]}
+
+
+def repeat_sequence(rng, shape, wt, length):
+    """calls: in-range, out-of-range, the same out-of-range again, in-range again, non-positive, grid points ... in random order"""
+    pts = eval_points(rng, shape, wt, 4)
+    by = {}
+    for p in pts:
+        by.setdefault(p[0], []).append(p)
+    inside = by.get('interior', []) + rng.sample(by['knot'], min(4, len(by['knot'])))
+    outs = [p for p in by.get('outside', []) if not p[2].get('single')]
+    rng.shuffle(outs)
+    seq = []
+    for o in outs:
+        i1 = rng.choice(inside)
+        block = rng.choice(([i1, o, o, i1, o], [o, o, i1, o], [i1, o, rng.choice(by['nonpos']), o, i1], [o, i1, o, o]))
+        seq += block
+    rest = inside + rng.sample(by['nonpos'], min(3, len(by['nonpos']))) + [p for p in by.get('outside', []) if p[2].get('single')][:3]
+    rng.shuffle(rest)
+    seq += rest + rest[: len(rest) // 2]
+    if len(seq) > length:
+        # keep whole blocks from the front (all axes), random tail
+        seq = seq[:length]
+    return seq
+
+
+def same_result(a, b):
+    if a[0] != b[0]:
+        return False
+    if a[0] != 'ok':
+        return True
+    return a[1] == b[1] or (math.isnan(a[1]) and math.isnan(b[1]))
+
+
+def repeat_case(ctx, cat, repo, name, dims, ex, fixed=None, calls=None):
+    """one live rate object answering a sequence of calls; returns (driver line, live results, points, case) or None"""
+    spec, shape = cat[name], cat[name]['shape']
+    c = numeric_case(ctx, cat, repo, name, dims, ex, fixed=fixed, keep_root=True) if fixed else numeric_case(ctx, cat, repo, name, dims, ex, keep_root=True)
+    try:
+        if c['st'] != 'ok':
+            return None
+        live = c['val'][0]
+        m = getattr(live, 'donor_metastable', None) if shape == 'beamCX' else None
+        tab = c['tabs'][c['elem_syms']]
+        wt = tab['metastables'][m] if shape == 'beamCX' else tab
+
+        def fresh():
+            st, val, _ = call_accessor(spec, c['provider'], c['species'], c['ch'], c['tr'])
+            return val[0]
+
+        seq = calls if calls is not None else repeat_sequence(ctx.rng, shape, wt, ctx.n(40, 90))
+        wl = None
+        if spec['wl']:
+            req = c['species'][spec['wl'][0]]
+            wl = c['wls'].get(req.symbol, c['wls'].get(_elem(req).symbol))
+        c['want_wl'] = c['model_wl'] = wl
+        desc = dict(kind='repeat', accessor=name, species=[s.name for s in c['species']], charges=c['ch'], transition=list(c['tr']),
+                    extrapolate=ex, fallback=c['fb'], wavelengths=c['wls'], dims=list(dims), table=wt, metastable=m)
+        results = []
+        for k, (kind, args, info) in enumerate(seq):
+            lv = impl_eval(live, args)
+            fr = impl_eval(fresh(), args)
+            results.append(lv)
+            ctx.count('repeat:' + kind)
+            ctx.case(key=('repeat', name, ex, k, tuple(f2b(x) for x in args)))
+            if not same_result(lv, fr):
+                # shrink: one earlier call + this one on a new object
+                prefix = None
+                earlier = []
+                for p_ in seq[:k]:
+                    if p_[1] not in earlier:
+                        earlier.append(p_[1])
+                cands = [[a_] for a_ in earlier] + [[a_, b_] for a_ in earlier[-8:] for b_ in earlier[-8:]]
+                for cand in cands:
+                    o = fresh()
+                    for a_ in cand:
+                        impl_eval(o, a_)
+                    got = impl_eval(o, args)
+                    if not same_result(got, fr):
+                        prefix, lv = cand, got
+                        break
+                if prefix is None:
+                    prefix = [p[1] for p in seq[:k]]
+                d = dict(desc, calls=prefix + [args], live_object=list(lv), fresh_object=list(fr), point=kind, info=info)
+                what = '%s-where-fresh-%s' % ('returns' if lv[0] == 'ok' else 'raises-' + lv[0], 'returns' if fr[0] == 'ok' else 'raises-' + fr[0])
+                if lv[0] == fr[0] == 'ok':
+                    what = 'different-value'
+                fail(ctx, 'C07:%s:call-depends-on-earlier-calls:%s' % (spec['cls'], what),
+                     '%s via %s (permit_extrapolation=%s): after the calls %s the call %s(%s) gives %s, the same call on a freshly constructed rate object gives %s'
+                     % (spec['cls'], name, ex, [tuple(x) for x in prefix][-3:], spec['cls'], ', '.join('%r' % x for x in args),
+                        lv[1] if lv[0] == 'ok' else lv[0], fr[1] if fr[0] == 'ok' else fr[0]), d)
+            else:
+                rate_oracle(ctx, c, shape, wt, kind, args, info, lv[0], lv[1], dict(desc, args=args, point=kind, info=info))
+        line = rate_line(spec['cls'], shape, ex, wl, wt, [p[1] for p in seq])
+        return line, results, seq, desc
+    finally:
+        repo.drop(c['root'])
+
+
+def repeat_stream(ctx, cat):
+    repo = Repo()
+    rng = ctx.rng
+    batch = []
+    for rep in range(ctx.n(1, 5)):
+        for name, spec in cat.items():
+            shapes = REPEAT_SHAPES[spec['shape']]
+            chosen = shapes if ctx.tier == 'thorough' else [shapes[0]] + ([rng.choice(shapes[1:])] if len(shapes) > 1 else [])
+            for dims in chosen:
+                for ex in (False, True):
+                    r = repeat_case(ctx, cat, repo, name, dims, ex)
+                    if r:
+                        batch.append(r)
+    repo.close()
+    outs = drive(ctx, [b[0] for b in batch]) if batch else []
+    for (line, results, seq, desc), out in zip(batch, outs):
+        mods = [parse_out(t) for t in out.split()]
+        for (kind, args, info), (ist, iv), (mst, mv) in zip(seq, results, mods):
+            ctx.traces += 1
+            agree = ist == mst and (ist != 'ok' or (iv == 0.0) == (mv == 0.0)) and (kind != 'knot' or ist != 'ok' or close(iv, mv, 1e-9))
+            if not agree:
+                ctx.disagreements += 1
+                ctx.count('disagreement:repeat')
+                _broke(ctx, 'repeated calls ' + desc['accessor'], dict(input=dict(desc, args=args, point=kind), model=[mst, mv], implementation=[ist, iv],
+                                                                      note='the model is a function of the table and the arguments only'))
+    return sum(len(b[2]) for b in batch)
+
+
 # ------------------------------------------------------------------------------------------------ bookkeeping
 _BROKE_SEEN = {}
 
@@ -1400,6 +1609,13 @@ def plan_numeric(ctx, cat):
                 plan.append((name, dims, False, (axis_i, end)))
                 if ctx.tier == 'thorough':
                     plan.append((name, dims, True, (axis_i, end)))
+    # degenerate tables in the range-policy stream: exactly flat components, components equal to 1 / the reference value,
+    # two-point axes, accepted single-point axes; all point kinds incl. 1.001x/3x/10x outside every axis end
+    for rep in range(ctx.n(1, 4)):
+        for name, spec in cat.items():
+            for dims, label in DEGENERATE[spec['shape']]:
+                for ex in (False, True):
+                    plan.append((name, dims, ex, None, None, None, label))
     # steep tables: every class (through its accessor), every axis, both extrapolation settings
     for rep in range(ctx.n(1, 6)):
         for name, spec in cat.items():
@@ -1465,7 +1681,9 @@ def setup(ctx):
 
 
 def describe(ctx):
-    ctx.rule = ('steep: per accessor and axis, tables swinging 2-4 decades between adjacent knots, four interior points per cell (and, for BeamCXPEC, '
+    ctx.rule = ('repeat: one live rate object per accessor/shape/extrapolation answering 40-90 calls (in-range, out-of-range, the same out-of-range again, '
+                'in-range again, non-positive, grid points, random order), each against a freshly constructed object; degenerate: flat / all-ones / '
+                'reference-valued components, two-point and accepted single-point axes through the full point set; steep: per accessor and axis, tables swinging 2-4 decades between adjacent knots, four interior points per cell (and, for BeamCXPEC, '
                 'two steep factors at once with a directed search for two simultaneous undershoots), S: value >= 0 and finite, K: BeamCXPEC clamp chain on '
                 'the interpolator values raysect itself returns; sequence: one provider instance answering random permutations of all requests (species variant x charge x transition x '
                 'metastable) and every ordered pair of requests differing in one coordinate, against a fresh provider and the stateless model, '
@@ -1516,6 +1734,7 @@ def run(ctx):
         ctx.count('policy-cases', n_pol)
         ctx.count('sequence-cases', sequence_stream(ctx, cat))
         numeric_stream(ctx, cat, plan_numeric(ctx, cat))
+        ctx.count('repeat-calls', repeat_stream(ctx, cat))
         deviants_tie(ctx)
     finally:
         finish_run(ctx)
@@ -1538,6 +1757,18 @@ def run_record(ctx, cat, repo, d, verbose=False):
         model = drive(ctx, [line])[0]
     elif d.get('kind') == 'sequence':
         return run_sequence_record(ctx, cat, d)
+    elif d.get('kind') == 'repeat':
+        spec = cat[d['accessor']]
+        tab = d['table']
+        if spec['shape'] == 'beamCX':
+            tab = dict(metastables={int(d.get('metastable') or 1): tab})
+        fixed = dict(species=[getattr(E, n) for n in d['species']], ch=d['charges'], tr=tuple(d['transition']), tab=tab, wls=d['wavelengths'], fb=d['fallback'])
+        calls = [(d.get('point', 'interior') if i == len(d['calls']) - 1 else 'replay-prefix', a_, d.get('info', {}) if i == len(d['calls']) - 1 else {})
+                 for i, a_ in enumerate(d['calls'])]
+        r = repeat_case(ctx, cat, repo, d['accessor'], tuple(d['dims']), d['extrapolate'], fixed=fixed, calls=calls)
+        if verbose and r:
+            print('live object results:', r[1])
+        return True
     elif d.get('kind') == 'numeric':
         spec = cat[d['accessor']]
         tab = d['table']
